@@ -78,6 +78,7 @@ func (db *DB) Begin(writable bool) (tx *Tx, err error) {
 	if err != nil {
 		return nil, err
 	}
+	verifYield("begin.beforeLock")
 
 	tx.lock()
 
@@ -284,17 +285,26 @@ func (tx *Tx) buildBucketMetaIdx(bucket string, key []byte, bucketMetaTemp Bucke
 	}
 
 	if updateFlag {
+		if h, _, herr := verifFS("open", tx.db.getBucketMetaFilePath(bucket), 0, nil); h {
+			return herr
+		}
 		fd, err := os.OpenFile(tx.db.getBucketMetaFilePath(bucket), os.O_CREATE|os.O_RDWR, 0644)
 		defer fd.Close()
 		if err != nil {
 			return err
 		}
 
+		if h, _, herr := verifFS("write", tx.db.getBucketMetaFilePath(bucket), 0, bucketMeta.Encode()); h {
+			return herr
+		}
 		if _, err = fd.WriteAt(bucketMeta.Encode(), 0); err != nil {
 			return err
 		}
 
 		if tx.db.opt.SyncEnable {
+			if h, _, herr := verifFS("sync", tx.db.getBucketMetaFilePath(bucket), 0, nil); h {
+				return herr
+			}
 			if err = fd.Sync(); err != nil {
 				return err
 			}
